@@ -1,4 +1,4 @@
-import RlibModel.Lemmas.Tensor
+import RlibModel.Lemmas.TensorIo
 /-!
 # C19 — tensor indexing is a row-major bijection with per-dimension bounds checks
 
@@ -193,11 +193,12 @@ theorem debug_spec {α} (render : α → List Char) (t : Tensor α) (hwf : WF t)
   unfold debugText
   rw [writePieces_spec t hwf]
 
-/-- The separator count is what the docs of the layout say: inside the last dimension a blank;
-    at the end of a row one newline; at the end of a row that also ends a plane two; … -/
-theorem sep_structure (d : Nat) (ds : List Nat) (n : Nat) :
-    sepCount (d :: ds) n = (if n % prod (d :: ds) = 0 then 1 else 0) + sepCount ds n ∧
-    sepCount [] n = 0 := ⟨rfl, rfl⟩
+/-- The separator written before the element at offset `n` (`0 < n < Π dims`) has as many newlines as the
+    multi-index of `n` has trailing zero coordinates — i.e. as many as dimensions just rolled over, the
+    code's `D − pos − 1` — and is one blank when there is none. -/
+theorem sep_trailing_zeros (dims : List Nat) (n : Nat) (h0 : 0 < n) (h : n < prod dims) :
+    sepCount dims n = trailingZeros (unflat dims n) :=
+  sepCount_eq_trailingZeros dims n h0 h
 
 /-- Tokenising the written text on ASCII whitespace gives back the renderings of the elements in
     storage order, provided an element's rendering is non-empty and whitespace-free (true for
@@ -228,6 +229,21 @@ theorem write_read {α} (render : α → List Char) (parse : List Char → α) (
     conv_rhs => rw [← List.map_id t.data]
     exact List.map_congr_left (fun a ha => hp a ha)
   simp only [this]
+
+/-- The round trip for the element type the harness uses: `i64` elements rendered as `rlib_io` renders
+    them (`Decimal.decimalS`, C09) and parsed as it parses them (`Decimal.parseS`, C08/C09) — the hypotheses
+    of `write_read` are discharged, nothing is assumed about the elements. -/
+theorem write_read_i64 (t : Tensor Int) (hwf : WF t) :
+    ∃ txt, writeText renderI64 t = .ok txt ∧ Tensor.read t.dims (tokRd parseI64 0) (splitWs txt) = .ok (t, []) :=
+  write_read renderI64 parseI64 0 t hwf (fun a _ => renderI64_clean a) (fun a _ => parse_renderI64 a)
+
+/-- … and for `String` elements that are non-empty and whitespace-free (the only strings `read::<String>()`
+    can return). -/
+theorem write_read_str (t : Tensor String) (hwf : WF t)
+    (hs : ∀ s ∈ t.data, s.toList ≠ [] ∧ ∀ c ∈ s.toList, isWs c = false) :
+    ∃ txt, writeText String.toList t = .ok txt ∧
+      Tensor.read t.dims (tokRd String.ofList "") (splitWs txt) = .ok (t, []) :=
+  write_read String.toList String.ofList "" t hwf hs (fun s _ => by simp)
 
 /-- `==` (after fix 40d6c9a) holds exactly when shape **and** elements agree. -/
 theorem eq_spec {α} [BEq α] [LawfulBEq α] (t u : Tensor α) :
@@ -265,6 +281,18 @@ example : specPieces [2, 3] [1, 2, 3, 4, 5, (6 : Nat)] =
     [.elem 1, .sep 0, .elem 2, .sep 0, .elem 3, .sep 1, .elem 4, .sep 0, .elem 5, .sep 0, .elem 6] := by decide
 example : (specPieces [2, 2, 1] [1, 2, 3, (4 : Nat)]) =
     [.elem 1, .sep 1, .elem 2, .sep 2, .elem 3, .sep 1, .elem 4] := by decide
+example := index_oob (⟨[2, 3], [1, 2, 3, 4, 5, 6]⟩ : Tensor Nat) [0, 3] 9 rfl (by simp [SomeOob])
+example := getIndex_total [2, 3] [1, 7] rfl
+example := (ctor_accepts [2, 2] [1, 2, 3, (4 : Int)] 0 (fun (s : Unit) => ((0 : Int), s)) () (by decide)).1 (by decide)
+example := ctorU_rejects_all [4294967296, 4294967296] ([] : List Int) (Or.inr (by decide))
+example := iter_rowmajor (⟨[2, 3], [1, 2, 3, 4, 5, 6]⟩ : Tensor Nat) ⟨by decide, by decide⟩
+example := index_mut_then_index (⟨[2, 3], [1, 2, 3, 4, 5, 6]⟩ : Tensor Nat) ⟨by decide, by decide⟩ [1, 0] 9 (by decide)
+example := write_spec (⟨[2, 2, 3], List.range 12⟩ : Tensor Nat) ⟨by decide, by decide⟩
+example := debug_spec (fun (n : Nat) => (toString n).toList) (⟨[2, 3], [1, 2, 3, 4, 5, 6]⟩ : Tensor Nat) ⟨by decide, by decide⟩
+example := write_read_i64 ⟨[2, 2], [-9223372036854775808, 0, -1, 9223372036854775807]⟩ ⟨by decide, by decide⟩
+example := write_read_str ⟨[2], ["ab", "c"]⟩ ⟨by decide, by decide⟩ (by decide)
+example : sepCount [2, 2, 3] 6 = 2 ∧ trailingZeros (unflat [2, 2, 3] 6) = 2 := by decide
+example := sep_trailing_zeros [2, 2, 3] 6 (by decide) (by decide)
 /-- rank 0: one element, offset 0, no separator -/
 example : getIndex [] [] = .ok 0 ∧ specPieces [] [(7 : Nat)] = [.elem 7] := ⟨rfl, rfl⟩
 /-- F8, the behaviour before the fix: data-only equality cannot tell a `2×3` from a `3×2` tensor;
